@@ -11,6 +11,8 @@ from tiv.mutate import M
 from tiv.sem import trace, same_bool
 
 RULES = {
+    "MEMO": "memo safety (shared, rules/common.py): a memoised function in this property's files (or called from them) is a function of its "
+            "arguments only (no terminal/ambient/receiver state outside the key) and no caller mutates its result in place",
     "R1": "positivity clamp: every return of BaseImage._valid_size is a 2-tuple whose elements are `E or 1` (or a caller-given dimension "
           "validated > 0 by set_size)",
     "R2": "unit conversions are inverse pairs and siblings agree: in every concrete _pixels_cols/_pixels_lines the pixels branch divides by the unit "
@@ -153,11 +155,8 @@ def run(ck, m):
                 writers.add(f"{rel}::{getattr(st, '_q', '')}")
     allowed = {f"{CM}::BaseImage.size#2", f"{CM}::BaseImage.size", f"{CM}::BaseImage.set_size", f"{UW}::UrwidImage.render"}
     ck.ob("R3", base, writers <= allowed, f"`_size` is written in {sorted(writers - allowed)}; only the size setter, set_size and (documented) UrwidImage.render may", stmt="writers of _size")
-    rn = m.get(CM, "BaseImage._renderer")
-    rt = next((s for s in rn.body if isinstance(s, ast.Try) and s.finalbody), None)
-    sv = [s for s in rn.body if isinstance(s, ast.Assign) and norm(s.value) == "self._size" and rt is not None and s.lineno < rt.lineno]
-    ok = bool(sv) and any(isinstance(s, ast.If) and same_bool(rn, s.test, f"isinstance({norm(sv[0].targets[0])}, Size)") and any(norm(x) in (f"self.size = {norm(sv[0].targets[0])}", f"self._size = {norm(sv[0].targets[0])}") for x in s.body) for s in rt.finalbody)
-    ck.ob("R3", rn, ok, "_renderer must restore a dynamic size in finally (rendering never turns a dynamic size into a fixed one)", stmt="_renderer: dynamic size restored")
+    from rules.common import rule_renderer_restores_size
+    rule_renderer_restores_size(ck, m, "R3")
     reach = [fn for rel, q, fn in m.functions() if fn.name in ("_valid_size", "_render_image", "_get_render_data", "_get_render_size", "_pixels_cols", "_pixels_lines", "_width_height_px", "_get_minimal_render_size")]
     bad = [f"{fn.name}: {short(st, 40)}" for fn in reach for t, st in stores_in(ast.Module(body=fn.body, type_ignores=[])) if isinstance(t, ast.Attribute) and t.attr in ("_size", "size")]
     ck.ob("R3", vs, not bad, f"size computation / rendering functions write the size: {bad}", stmt="_valid_size, renderers and conversions never write the size")
@@ -200,6 +199,12 @@ def run(ck, m):
     ck.ob("R5", fit, any(match_expr("min($v, frame_height)", n) is not None for s_ in fit.body for n in ast.walk(s_)), "the adjusted dimension must be clamped to its own frame dimension", stmt="_valid_size: clamp to the matching frame dimension")
     fr = same_bool(vs, fit.test, "frame_height / self._original_size[1] > frame_width / self._original_size[0]")
     ck.ob("R5", vs, bool(fr), "the constraining axis is decided from frame/original ratios per axis", stmt="_valid_size: ratios per axis")
+
+    from rules.c05 import rule_frame_normalisation
+    rule_frame_normalisation(ck, m, "R1")
+
+    from rules.common import rule_memo_safety
+    rule_memo_safety(ck, m, "MEMO", "C04")
 
 
 MUTANTS = [
